@@ -13,7 +13,7 @@ REGISTRATION = {
     "category": "proof",
     "text": "The GGUF decoder is modelled as a total Lean function whose outcomes include every Go panic site and every "
             "input-sized allocation, with one flag per validation the decoder performs. Theorems: with the validations "
-            "the working tree has (all ten, after the fix commits; Guards.tree) the decoder never panics and never makes an "
+            "the working tree has (all eleven, after the fix commits; Guards.tree) the decoder never panics and never makes an "
             "allocation above the budget, for every byte string, array limit and budget (decode_safe_tree, unconditional); "
             "the same under explicit decidable guards for any subset of validations (decode_safe_partial), with a "
             "kernel-checked witness file for every validation upstream's pinned code lacks; termination by construction. "
@@ -221,7 +221,7 @@ def run(ctx):
     if ctx.thorough:
         ctx.leanchecker(MODULES)
     ctx.assumptions += [
-        "allocation class: TotalAlloc delta > 4x budget, makeslice panic, or fatal out-of-memory under RLIMIT_AS=6GiB",
+        "allocation class: TotalAlloc delta > 4x budget, makeslice panic, or fatal out-of-memory under RLIMIT_AS=3GiB",
         "budget = 1 MiB + 64 bytes per input byte per single allocation",
     ]
     return ctx.finish(
